@@ -97,6 +97,10 @@ func c18Child(c *mon.Child) {
 		}
 		if strconv.CanBackquote(s) {
 			forms = append(forms, form{"back-quoted/default-lexer", "`" + s + "`", "def"}, form{"back-quoted/stateful-lexer", "`" + s + "`", "st"})
+		} else if !strings.Contains(s, "`") && utf8.ValidString(s) && !strings.ContainsAny(s, "\x00\ufeff") {
+			// s does not "permit" back-quoting by strconv's rule (control characters), but the token is still a Go
+			// raw string literal: its unquoted value is what strconv.Unquote says (carriage returns are discarded)
+			forms = append(forms, form{"back-quoted-raw/stateful-lexer", "`" + s + "`", "st"})
 		}
 		forms = append(forms, form{"single-quoted/stateful-lexer", singleQuoted(s), "st"})
 		if utf8.ValidString(s) && utf8.RuneCountInString(s) == 1 {
@@ -139,6 +143,10 @@ func c18Child(c *mon.Child) {
 				report("", fmt.Sprintf("parsing the literal failed: %v", perr))
 			case len(got) != 3 || got[0] != "pre" || got[2] != "post":
 				report("", fmt.Sprintf("captured %q, expected [pre <s> post]", got))
+			case f.name == "back-quoted-raw/stateful-lexer":
+				if want, err := strconv.Unquote(f.lit); err == nil && got[1] != want {
+					report("", fmt.Sprintf("captured %q, the raw string literal's value is %q", got[1], want))
+				}
 			case got[1] != s:
 				report("", fmt.Sprintf("captured %q, expected exactly s", got[1]))
 			}
@@ -195,6 +203,7 @@ func c18Child(c *mon.Child) {
 		c.Nontrivial("bad:" + lit)
 	}
 	c18Combined(c)
+	c18Retype(c)
 	// Upper and Map: exactly the selected types, positions untouched, each token once, in order, before elision.
 	nm := c.N(3000, 20000)
 	words := []string{"abc", "Hello", "x1", "ünï", "12", "7", `"q s"`, "'c'", "`r`", "-", ";", ","}
@@ -361,6 +370,66 @@ func c18Combined(c *mon.Child) {
 			c.Nontrivial("combined:" + input)
 		}
 		c.End(key)
+	}
+}
+
+// c18Retype: an all-token mapper that changes token types runs first; the per-type mappers
+// must still be selected by the type the lexer gave the token (the "selected types" of the stream).
+func c18Retype(c *mon.Child) {
+	sym := c18Lex.Symbols()
+	var log []lexer.Token
+	p, err := participle.Build[c18S](participle.Lexer(c18Lex), participle.Elide("WS"),
+		participle.Map(func(t lexer.Token) (lexer.Token, error) {
+			if t.Type == sym["Ident"] && len(t.Value) > 2 {
+				t.Type = sym["Num"]
+			}
+			return t, nil
+		}),
+		participle.Upper("Ident"),
+		participle.Map(func(t lexer.Token) (lexer.Token, error) { log = append(log, t); return t, nil }, "Num"))
+	if err != nil {
+		c.Violation("", "retype", "parser with a retyping mapper does not build: "+err.Error(), nil)
+		return
+	}
+	for i, input := range []string{"abc 12 x hello 7", "ab abc abcd 1", "hello", "1 2 three"} {
+		key := fmt.Sprintf("retype%d", i)
+		if !c.Want(key) {
+			continue
+		}
+		c.Eval(1)
+		raw, _ := lexer.ConsumeAll(mustLex(c18Lex.LexString("r.txt", input)))
+		log = nil
+		mapped, merr := p.Lex("r.txt", strings.NewReader(input))
+		if merr != nil || len(mapped) != len(raw) {
+			c.Violation("", key, fmt.Sprintf("retyping mapper: %d mapped tokens (err %v), %d raw", len(mapped), merr, len(raw)), nil)
+			continue
+		}
+		var wantLog []string
+		for j, t := range raw {
+			want := t
+			if t.Type == sym["Ident"] {
+				want.Value = strings.ToUpper(t.Value)
+				if len(t.Value) > 2 {
+					want.Type = sym["Num"]
+				}
+			}
+			if t.Type == sym["Num"] {
+				wantLog = append(wantLog, t.Value)
+			}
+			if mapped[j] != want {
+				c.Violation("", key, fmt.Sprintf("untargeted retyping Map + Upper(Ident) + Map(Num): token #%d is %#v, expected %#v (mappers are selected by the lexed type) | input %q", j, mapped[j], want, input), map[string]interface{}{"input": input})
+				break
+			}
+		}
+		var gotLog []string
+		for _, t := range log {
+			gotLog = append(gotLog, t.Value)
+		}
+		if strings.Join(gotLog, ",") != strings.Join(wantLog, ",") {
+			c.Violation("", key, fmt.Sprintf("Map(f, Num) saw %v, the stream's Num tokens are %v | input %q", gotLog, wantLog, input), nil)
+		}
+		c.Feature("retyping_mapper_cases")
+		c.Nontrivial("retype:" + input)
 	}
 }
 
